@@ -7,7 +7,7 @@ import CpModel.AuthPrims
   PAIRS = `_` | `TEXT~TEXT,…`, CODEC = utf8 | latin1 | ascii.
 
     basic  CHARSETNAME:TEXT CODEC REALM:TEXT STORE:PAIRS HDR:OPT NFC:PAIRS
-    digest CHARSETNAME:TEXT CODEC REALM:TEXT KEY:TEXT plain|ha1 STORE:PAIRS METHOD:TEXT NOW:int HDR:OPT
+    digest CHARSETNAME:TEXT CODEC REALM:TEXT KEY:TEXT plain|ha1|htdigest STORE:PAIRS|TRIPLES METHOD:TEXT NOW:int HDR:OPT
         → `grant TEXT` | `401 TEXT` | `400` | `500 ValueError|IndexError|TypeError`
   primitive cross-checks:
     md5 HEX → HEX      b64 TEXT → `ok HEX` | `err`      utf8 HEX → `ok TEXT` | `err`     int TEXT → `N` | int
@@ -22,6 +22,13 @@ def parsePairs (s : String) : Option (List (Str × Str)) :=
   (s.splitOn ",").mapM fun p =>
     match p.splitOn "~" with
     | [a, b] => do pure (← Proto.untext? a, ← Proto.untext? b)
+    | _ => none
+
+def parseTriples (s : String) : Option (List (Str × Str × Str)) :=
+  if s == "_" then some [] else
+  (s.splitOn ",").mapM fun p =>
+    match p.splitOn "~" with
+    | [a, b, c] => do pure (← Proto.untext? a, ← Proto.untext? b, ← Proto.untext? c)
     | _ => none
 
 def showPairs (l : List (Str × Str)) : String :=
@@ -56,12 +63,15 @@ def step (line : String) : String :=
       showOutcome (basicAuth P { realm := realm, store := store, acceptCharset := cn } hdr)
     | _, _, _, _, _, _ => "bad-op"
   | ["digest", cn, codec, realm, key, kind, store, method, now, hdr] =>
-    match Proto.untext? cn, parseCodec codec, Proto.untext? realm, Proto.untext? key, parsePairs store,
+    let st? : Option Store :=
+      if kind == "plain" then (parsePairs store).map .plain
+      else if kind == "ha1" then (parsePairs store).map .ha1
+      else if kind == "htdigest" then (parseTriples store).map .htdigest
+      else none
+    match Proto.untext? cn, parseCodec codec, Proto.untext? realm, Proto.untext? key, st?,
           Proto.untext? method, now.toInt?, parseOpt hdr with
-    | some cn, some dec, some realm, some key, some store, some method, some now, some hdr =>
-      if kind != "plain" && kind != "ha1" then "bad-op" else
+    | some cn, some dec, some realm, some key, some st, some method, some now, some hdr =>
       let P : Prims := { H := md5Hex, b64decode := b64decode, decode := dec, nfc := id }
-      let st : Store := if kind == "plain" then .plain store else .ha1 store
       showOutcome (digestAuth P { realm := realm, key := key, store := st, acceptCharset := cn } method now hdr)
     | _, _, _, _, _, _, _, _ => "bad-op"
   | ["md5", h] =>
